@@ -1,4 +1,4 @@
-"""Sidecar contract for /repo/ural/infer_redirection.py (C15): termination by a recursion measure, provenance of the result."""
+"""Sidecar contract for /repo/ural/infer_redirection.py (C15): one step returns the input or something strictly shorter; the loop over steps terminates by that measure."""
 from contracts._platform import RE_LIB, URL_ATTRS, BOUND
 
 MODULE = {
@@ -9,15 +9,24 @@ MODULE = {
                       "ensures": ["len(result) >= 1", "len(result) <= 2 * maxsplit + 1"]},
     }),
     "functions": {
-        "infer_redirection": {
-            "types": {"url": "Str", "recursive": "Bool", "redirection_split": "Seq[Str]", "target": "Opt[Str]", "obvious_redirect_match": "Opt[Obj]",
-                      "potential_target": "Str", "lent": "Bool"},
+        "infer_one_redirection": {
+            "types": {"url": "Str", "redirection_split": "Seq[Str]", "target": "Opt[Str]", "obvious_redirect_match": "Opt[Obj]",
+                      "potential_target": "Str", "lent": "Bool", "base": "Str"},
             "returns": "Str",
-            # terminates: every recursive call is made on a strictly shorter string
-            "decreases": "len(url)",
             # raises nothing: group(1) / group(2) are mandatory groups of the real pattern (sre tree), the urljoin ValueError is caught
             "ensures": [
-                # the result is the input itself or comes out of a (possibly recursive) step on a target; never longer than the input
+                # one step: the input itself, or a strictly shorter string
+                "result == old(url) or len(result) < len(old(url))",
+            ],
+        },
+        "infer_redirection": {
+            "types": {"url": "Str", "recursive": "Bool", "target": "Str"},
+            "returns": "Str",
+            # terminates: every turn of the loop works on a strictly shorter string (no recursion any more: nesting depth is not bounded by the interpreter)
+            "loops": {1: {"invariant": ["len(target) <= len(url)", "len(url) <= len(old(url))", "target == url or len(target) < len(url)", "implies(not recursive, url == old(url))"],
+                          "decreases": "len(url)"}},
+            "ensures": [
+                # the result is the input itself or comes out of a chain of steps; never longer than the input
                 "len(result) <= len(old(url))",
                 "implies(not recursive, result == old(url) or len(result) < len(old(url)))",
             ],
